@@ -2,7 +2,8 @@ import BfeVerif.Common.Proto
 import BfeVerif.C13.Driver
 import BfeVerif.C14.Model
 /-!
-  C14 driver.  op = `cfg <host_rule json>~<probe host>,<probe host>,…`
+  C14 driver.  op = `gslb <hist>~<final>~<probes>`: see `runGslb` (fresh load vs. reload histories ending in the same gslb conf)
+  op = `cfg <host_rule json>~<probe host>,<probe host>,…`
   impl result = the SET of outcomes observed over many in-process loads of the same file, sorted, joined by `|`;
   one outcome = `err` or `ok:<probe>=<product>/<tag>,…` (`-` for "no product").
   model result = the set of outcomes over ALL iteration orders of the three Go maps involved.
@@ -49,8 +50,63 @@ def ambiguityClass (f : HostFile) : String :=
   else if !(nodupB (names.map fun h => ".".intercalate (normBuild h))) then "host-dot-dup"
   else "none"
 
+
+/-! ### gslb op -/
+def parseSub (kv : String) : Option Sub :=
+  match (kv.splitOn "=").reverse with
+  | w :: rest@(_ :: _) =>
+    match w.toInt? with
+    | some n => some { name := "=".intercalate rest.reverse, weight := n }
+    | none => none
+  | _ => none
+
+def parseGConf (s : String) : Option (List Sub) := (s.splitOn ",").mapM parseSub
+
+def parseProbe (p : String) : Option (String × Int) :=
+  match (p.splitOn ":").reverse with
+  | h :: rest@(_ :: _) => h.toInt?.map fun n => (":".intercalate rest.reverse, n)
+  | _ => none
+
+def decisions (g : Gslb) (probes : List (String × Int)) : String :=
+  ",".intercalate (probes.map fun p => (gslbSelect g p.2).getD "-")
+
+def runGslb (body impl : String) : Ans :=
+  match body.splitOn "~" with
+  | [hs, fs, ps] =>
+    let hist := if hs == "-" then some [] else (hs.splitOn ";").mapM parseGConf
+    match hist, parseGConf fs, (ps.splitOn ",").mapM parseProbe with
+    | some hist, some final, some probes =>
+      match gslbInit final with
+      | none => { model := "bad-final", verdict := "skip", tags := ["gslb", "bad-final"] }
+      | some fresh =>
+        let viaHist : Option Gslb := match hist with
+          | [] => some fresh
+          | h0 :: rest => (gslbInit h0).map fun g0 => gslbReload (gslbHistory g0 rest) final
+        match viaHist with
+        | none => { model := "bad-first", verdict := "skip", tags := ["gslb", "bad-first"] }
+        | some gh =>
+          let model := "fresh=" ++ decisions fresh probes ++ ";hist=" ++ decisions gh probes
+          -- spec oracle on the implementation's line: one decision vector per variant, and both variants agree
+          let verdict :=
+            match impl.splitOn ";hist=" with
+            | [f, h] =>
+              let f := (f.drop 6).toString
+              if f.contains '|' || h.contains '|' then "FAIL:gslb-order-dependent"
+              else if f != h then "FAIL:gslb-history-dependent"
+              else "ok"
+            | _ => "FAIL:gslb-bad-result"
+          let added := match hist.getLast? with
+            | some last => final.any fun s => !(last.any fun t => t.name == s.name)
+            | none => false
+          { model := model, verdict := verdict,
+            tags := ["gslb", s!"hist{min hist.length 3}", if fresh.single then "single" else "multi"] ++
+              (if added then ["reload-adds"] else []) ++ (if hist.isEmpty then [] else ["nt"]) }
+    | _, _, _ => { model := "bad-op", verdict := "skip" }
+  | _ => { model := "bad-op", verdict := "skip" }
+
 def run (op impl : String) : Ans :=
   match op.splitOn " " with
+  | "gslb" :: rest => runGslb (" ".intercalate rest) impl
   | "cfg" :: rest =>
     match (" ".intercalate rest).splitOn "~" with
     | [js, ps] =>
